@@ -89,4 +89,10 @@ CHECKS = {
         "level_note": "The model is the same code in a fresh state; a defect that is independent of history is invisible here (other properties cover those).",
         "technique": "history monitor with a fresh-instance reference model (differential)",
     },
+    "C09": {
+        "level_text": "Exploration: each text is analysed in modes C, A and B and through the on-demand split API; the source model of the generated dictionaries says which unit ids every C token must split into, and ranges are checked on normalised-text and original-text positions. Held on the counted tokens.",
+        "design_ref": "DESIGN.md 6/C09",
+        "level_note": "Only dictionaries that satisfy the statement's precondition (units concatenate to the key) are generated here; inconsistent ones are C01/C03 territory (known finding D9).",
+        "technique": "reference-model monitor (declared units from the source CSV) + differential monitor (split API vs direct mode A/B)",
+    },
 }
